@@ -321,6 +321,30 @@ def gen_run(rng, quick=True):
                 elev=[round(rng.uniform(0, 8), 2) for _ in range(n)])
 
 
+def gen_swap_run(rng):
+    """two equally sized zones behind their own inlet pipe on alternating supply: in one step the inlet of zone A closes and the
+    inlet of zone B opens, so the SET of isolated junctions/links changes while its size does not; later both are open"""
+    k = rng.randint(1, 3)                      # junctions per zone
+    kinds = ["R", "J"] + ["J"] * (2 * k)
+    links = [(0, 1)]
+    inlet = {}
+    for z, base in (("A", 2), ("B", 2 + k)):
+        inlet[z] = len(links)
+        links.append((1, base) if rng.random() < 0.5 else (base, 1))
+        for i in range(1, k):
+            links.append((base + i - 1, base + i) if rng.random() < 0.5 else (base + i, base + i - 1))
+    n = len(kinds)
+    init = [OPEN] * len(links)
+    init[inlet["B"]] = CLOSED
+    t = rng.randint(1, 3)
+    steps = t + rng.randint(3, 4)
+    ctrls = [(inlet["A"], t, CLOSED), (inlet["B"], t, OPEN), (inlet["A"], t + 2, OPEN)]
+    if rng.random() < 0.5:
+        ctrls.append((inlet["B"], t + 2, CLOSED))   # swap back
+    return dict(n=n, kinds=kinds, links=links, init=init, steps=steps, ctrls=ctrls, pdd=rng.random() < 0.3,
+                demands=[round(rng.uniform(0.0005, 0.004), 6) for _ in range(n)], elev=[round(rng.uniform(0, 8), 2) for _ in range(n)])
+
+
 def build_run_wn(wntr, sc):
     from wntr.network.controls import Control, ControlAction, SimTimeCondition
 
@@ -657,6 +681,7 @@ class C09(Check):
             net["kinds"][-1] = "J"
             nets.append((net, [ACTIVE] * len(net["links"]), ["p"]))
         runs = [gen_run(rng, quick=q) for _ in range(14 if q else 120)]
+        runs += [gen_swap_run(rng) for _ in range(3 if q else 20)]
         return csr, nets, runs
 
     def correspondence(self, ctx):
